@@ -16,18 +16,18 @@ theorem swap_sef (s t : Stmt) (hs : sefS s = true)
   have hfs : ∀ (w : St) (R : Regs) (T : List Event),
       execS cfg false s { w with regs := R, tr := T } = { execS cfg false s w with regs := R, tr := T } :=
     fun w R T => sefS_frame cfg false s hs w R T
-  have hsu : EqOff (defsS s) (execS cfg false s u) u := by
+  have hsu : EqOff (fun x => x ∈ defsS s) (execS cfg false s u) u := by
     have hf := hfs u u.regs u.tr
     have e : ({ u with regs := u.regs, tr := u.tr } : St) = u := rfl
     rw [e] at hf
     exact ⟨by rw [hf], by rw [hf], fun x hx => envS_frame cfg false s x hx u⟩
   -- run t on both
-  have hts := sameS_sim cfg (defsS s) t (fun x hx hm => h1 x hm hx) _ _ hsu
+  have hts := sameS_sim cfg (fun x => x ∈ defsS s) t (fun x hx hm => h1 x hm hx) _ _ hsu
   -- run s from A
   let A := execS cfg false t u
-  have hAu : EqOff (defsS t) ({ A with regs := u.regs, tr := u.tr } : St) u :=
+  have hAu : EqOff (fun x => x ∈ defsS t) ({ A with regs := u.regs, tr := u.tr } : St) u :=
     ⟨rfl, rfl, fun x hx => envS_frame cfg false t x hx u⟩
-  have hsA := sameS_sim cfg (defsS t) s (fun x hx hm => h3 x hm hx) _ _ hAu
+  have hsA := sameS_sim cfg (fun x => x ∈ defsS t) s (fun x hx hm => h3 x hm hx) _ _ hAu
   have hfA := hfs { A with regs := u.regs, tr := u.tr } A.regs A.tr
   have eA : ({ ({ A with regs := u.regs, tr := u.tr } : St) with regs := A.regs, tr := A.tr } : St) = A := rfl
   rw [eA] at hfA
